@@ -881,7 +881,15 @@ func (fr *frame) runLoop(l *loop, ins []edge, incoming map[*ssa.BasicBlock][]edg
 	fr.heads = append(fr.heads, st1.clone())
 	u.loopRegion = append(u.loopRegion, &loopRegion{region: lreg, name: lname, minFresh: u.nextObj})
 	inc := map[*ssa.BasicBlock][]edge{l.header: {{nil, st1}}}
+	nDefers := len(fr.defers)
 	backs := fr.runBlocks(blocks, inc, l)
+	for _, d := range fr.defers[nDefers:] {
+		if d.inLoop {
+			for _, e := range backs {
+				fr.checkDeferredPre(e.st, d, "requires@iteration-end")
+			}
+		}
+	}
 	u.loopRegion = u.loopRegion[:len(u.loopRegion)-1]
 	for b, es := range inc {
 		if !l.blocks[b] {
